@@ -202,6 +202,13 @@ def _classify(repo, col):
 
 def _pair(repo, col):
     R = "R-C19-pair"
+    pair_delete(repo, col, R)
+    _pair_rest(repo, col, R)
+
+
+def pair_delete(repo, col, R):
+    """delete_clamps / delete_stimuli: what remains of the values and of the row indices is selected with ONE mask
+    (positions), so row k of the values still belongs to index k."""
     fi = repo.method("Module", "delete_clamps")
     ex = idx.expander(repo, fi)
     pops = [s for s in ex.stores if s.kind == "mcall" and s.key.name == "pop"]
@@ -212,7 +219,12 @@ def _pair(repo, col):
     masks = {_reg_name(s.base): (s.value.args[1].key() if s.value.op == "sub" else None) for s in subs}
     ok = set(masks) == {"externals", "external_inds"} and len(set(masks.values())) == 1 and None not in masks.values()
     col.check(ok, R, fi, "delete_clamps filters values and indices with one mask", "same keep mask",
-              f"masks differ: {masks}", node=subs[0].node if subs else fi.node)
+              f"values and row indices that remain after a partial deletion are selected differently ({masks}): e.g. a sorted set "
+              f"difference for the indices but a positional mask for the values re-pairs every remaining input with another compartment",
+              node=subs[0].node if subs else fi.node)
+
+
+def _pair_rest(repo, col, R):
     fi = repo.method("Module", "_external_input")
     ex = idx.expander(repo, fi)
     by_guard = {}
